@@ -176,9 +176,43 @@ template <typename T> void run() {
     }
     if constexpr (std::is_same_v<T, vs::Counted>) vs::Counted::expect_balanced("C01.instances");
 }
+
+// ---- a promise that still owns a pending future is overwritten by move-assignment: that is a drop of the old future
+template <typename T> void assignment_mode() {
+    int src = dsim::choose(3);        // 0 promise of another future, 1 empty promise, 2 a promise moved from a third party
+    int nwait = dsim::choose(3); int wk[2]; for (int i = 0; i < nwait; i++) wk[i] = dsim::choose(2);
+    bool threads = dsim::flip();
+    dsim::plan_note("assignment over a pending promise: source=%d waiters=%d threads=%d", src, nwait, (int)threads);
+    {
+        cocls::future<T> f_old, f_new;
+        cocls::promise<T> p = f_old.get_promise();
+        dsim::cell_set(WIN_KIND, K_NOVALUE); dsim::cell_set(WIN_VAL, 0);
+        std::vector<std::thread> th;
+        cocls::future<void> cw[2];
+        for (int i = 0; i < nwait; i++) {
+            if (threads) th.emplace_back([&, i] { if (wk[i]) coro_waiter<T>(f_old, i, 0).join(); else { f_old.sync(); observe(f_old, i); } });
+            else cw[i] << [&] { return coro_waiter<T>(f_old, i, wk[i]).start(); };
+        }
+        cocls::promise<T> other = src == 1 ? cocls::promise<T>() : f_new.get_promise();
+        if (src == 2) { cocls::promise<T> via(std::move(other)); p = std::move(via); } else p = std::move(other);
+        // the old future must be resolved (no value) by the assignment itself, without anybody else's help
+        if (!f_old.ready()) dsim::fail("C01.assignment_forgets_future", "a promise owning a pending future was overwritten by move-assignment and the old future is still pending");
+        for (auto &t : th) t.join();
+        for (int i = 0; i < nwait; i++) { if (!threads) cw[i].sync(); if (dsim::cell_get(WAIT_KIND + i) != K_NOVALUE) dsim::fail("C01.result_mismatch", "waiter %d of the dropped future observed kind %ld", i, dsim::cell_get(WAIT_KIND + i)); }
+        if (f_old.has_value()) dsim::fail("C01.has_value", "dropped future reports a value");
+        if (src != 1) {
+            bool ok; if constexpr (std::is_void_v<T>) ok = p(); else ok = Tr<T>::resolve(p, 77);
+            if (!ok) dsim::fail("C01.no_winner", "the assigned promise refused to resolve its new future");
+            observe(f_new, 9);
+            if (dsim::cell_get(WAIT_KIND + 9) != K_VALUE || (!std::is_void_v<T> && dsim::cell_get(WAIT_VAL + 9) != 77)) dsim::fail("C01.result_mismatch", "new future holds kind %ld value %ld", dsim::cell_get(WAIT_KIND + 9), dsim::cell_get(WAIT_VAL + 9));
+        } else if (p) dsim::fail("C01.still_valid", "promise assigned from an empty promise is valid");
+    }
+    if constexpr (std::is_same_v<T, vs::Counted>) vs::Counted::expect_balanced("C01.instances");
+}
 } // namespace
 
 void dsim_scenario() {
+    if (dsim::choose(6) == 5) { int t = dsim::choose(3); if (t == 0) assignment_mode<long>(); else if (t == 1) assignment_mode<void>(); else assignment_mode<vs::Counted>(); return; }
     int ty = dsim::choose(5);
     switch (ty) {
     case 0: dsim::plan_note("T=long "); run<long>(); break;
